@@ -36,6 +36,12 @@ def opts(tier):
     o.p_none = 0.25
     o.short_last_p = 0.08
     o.equal_shapes_p = 0.25
+
+    def scaling(rng, spec, ctype):
+        if rng.random() < 0.2:
+            from .c13 import add_scaling
+            add_scaling(rng, spec, ctype, p=0.6)      # the one-chunk cache then holds scaled chunks
+    o.scaling = scaling
     return o
 
 
